@@ -107,7 +107,14 @@ func TestNotRacy(t *testing.T) {
 	simrt.Run(t, simrt.Config{}, simrt.NewTape(1), func() {
 		done := make(chan int)
 		for i := 0; i < 2; i++ {
-			simrt.Go("w", func() { simrt.Yield("w1"); mu.Lock(); shared++; mu.Unlock(); simrt.Yield("w2"); done <- 1 })
+			simrt.Go("w", func() {
+				simrt.Yield("w1")
+				mu.Lock()
+				shared++
+				mu.Unlock()
+				simrt.Yield("w2")
+				done <- 1
+			})
 		}
 		<-done
 		<-done
